@@ -200,6 +200,8 @@ class Analyzer:
             return None
         if k == "Var":
             return env.get(n["v"])
+        if k == "Closure":
+            return ("closure", n["id"])
         if k in ("Ref", "RawRef") and n["e"].get("k") == "Field":
             a = self.field_addr(n["e"])
             if a is not None:
@@ -266,7 +268,7 @@ class Analyzer:
             op = n["op"]
             return self.binop(op, a, b, env)
         if k == "Call":
-            c = callee(n)
+            c = callee(n) or ""
             if c in ("*const T::add", "*mut T::add") and len(n["args"]) == 2:
                 a, k_ = self.val(n["args"][0], env), self.val(n["args"][1], env)
                 sz = self.size_of(subst_ty(n["targs"][0], env.get("$tsub"))) if n.get("targs") else None
@@ -346,6 +348,15 @@ class Analyzer:
         return None
 
     def binop(self, op, a, b, env):
+        if op == "BitAnd" and ((a is None) != (b is None)):
+            k_ = a if a is not None else b
+            if k_[0] == "int" and k_[1] > 0 and (k_[1] & (k_[1] - 1)) == 0:
+                return ("bit", k_[1])
+        if a is not None and b is not None and op in ("Ne", "Eq") and {a[0], b[0]} == {"bit", "int"}:
+            bit = a if a[0] == "bit" else b
+            z = b if a[0] == "bit" else a
+            if z[1] == 0:
+                return ("guard", ("bit", bit[1]), op == "Ne")
         if a is not None and b is not None and a[0] == "addr" and b[0] == "addr" and a[1] == b[1] and op in ("Eq", "Ne"):
             return ("bool", (a[2] == b[2]) == (op == "Eq"))
         if a is None or b is None:
@@ -993,6 +1004,8 @@ class Analyzer:
             cl = peel(n["args"][0])
             if cl.get("k") == "Closure":
                 return then(acc, self.closure_events(cl, env)), None
+            if argvals and argvals[0] is not None and argvals[0][0] == "closure":
+                return then(acc, self.closure_events({"id": argvals[0][1]}, env)), None
         # unknown callee: closures passed to it may run any number of times
         extra = Ex()
         for a in n["args"]:
